@@ -80,7 +80,78 @@ def import_lark():
             pass
     from sim import seams
     seams.install()
+    global _PROCESS_STATE
+    if _PROCESS_STATE is None:
+        _PROCESS_STATE = _snapshot_process_state()
     return lark
+
+
+_PROCESS_STATE = None
+_MISSING = object()
+
+
+def _plain_data(v):
+    import types
+    return not (callable(v) or isinstance(v, (types.ModuleType, property, classmethod, staticmethod, types.MemberDescriptorType,
+                                              types.GetSetDescriptorType, types.WrapperDescriptorType, types.MethodDescriptorType)))
+
+
+def _snapshot_process_state():
+    """the volatile state of a process that has imported lark and not used it yet, as far as it lives in class attributes and module
+    globals of the lark package (plain data only: constants, flags, memo tables, 'last seen' records).  Found generically, so that a
+    change which adds such a record is covered without naming it.  Function attributes (load_grammar._get_parser.cache: 0.2 s to
+    rebuild) are C12's own knob."""
+    snap = []
+    seen = set()
+    for name, mod in sorted(sys.modules.items()):
+        if not (name == 'lark' or name.startswith('lark.')) or mod is None:
+            continue
+        for k, v in list(vars(mod).items()):
+            if k.startswith('__'):
+                continue
+            if isinstance(v, type) and v.__module__ == name and id(v) not in seen:
+                seen.add(id(v))
+                keys = {ck for ck in vars(v) if not ck.startswith('__')}
+                snap.append(('class-keys', v, keys, None))
+                for ck in keys:
+                    cv = vars(v)[ck]
+                    if _plain_data(cv):
+                        snap.append(('attr', v, ck, (cv, cv.copy() if isinstance(cv, (dict, list, set)) else None)))
+            elif _plain_data(v) and not isinstance(v, type):
+                snap.append(('attr', mod, k, (v, v.copy() if isinstance(v, (dict, list, set)) else None)))
+    return snap
+
+
+def reset_lark_process_state():
+    """a run starts in a process that has only imported lark: nothing an earlier run of this worker left in lark's class attributes
+    or module globals survives (only durable state survives a restart).  Returns the names that had to be restored."""
+    restored = []
+    for kind, owner, key, val in _PROCESS_STATE or ():
+        if kind == 'class-keys':
+            for ck in [ck for ck in vars(owner) if not ck.startswith('__') and ck not in key and ck != '_abc_impl']:
+                if _plain_data(vars(owner)[ck]):
+                    try:
+                        delattr(owner, ck)
+                        restored.append('%s.%s (new)' % (owner.__name__, ck))
+                    except (AttributeError, TypeError):
+                        pass
+            continue
+        orig, content = val
+        cur = vars(owner).get(key, _MISSING)
+        if cur is not orig:
+            try:
+                setattr(owner, key, orig)
+                restored.append('%s.%s' % (getattr(owner, '__name__', owner), key))
+            except (AttributeError, TypeError):
+                pass
+        if content is not None and orig != content:
+            if isinstance(orig, list):
+                orig[:] = content
+            else:
+                orig.clear()
+                orig.update(content)
+            restored.append('%s.%s (content)' % (getattr(owner, '__name__', owner), key))
+    return restored
 
 
 # ----------------------------------------------------------------------------------------------- results
@@ -261,7 +332,7 @@ def _run_chunk(start, count, keep_digest, chunk_wall, deadline, stride=1, offset
             rs = run_seed(seed, check.ID, i)
             try:
                 t_run = time.time()
-                plan = check.gen_plan(random.Random(rs), tier)
+                plan = norm(check.gen_plan(random.Random(rs), tier))
                 out = check.execute(plan)
                 if os.environ.get('VERIF_DEBUG') and time.time() - t_run > 10:
                     sys.stderr.write('debug: slow run %d: %.1fs %s\n' % (i, time.time() - t_run, json.dumps(plan)[:600]))
@@ -280,11 +351,19 @@ def _run_chunk(start, count, keep_digest, chunk_wall, deadline, stride=1, offset
     return agg
 
 
+def norm(plan):
+    """the normal form of a plan: what a replay file holds.  Every execution runs on this form, so that nothing a plan generator leaves
+    behind in its Python objects - two operations sharing ONE string object, tuples, integer keys - can make the run in the worker differ
+    from the replay of its file (found with a seeded change that compared input texts by identity)."""
+    return json.loads(json.dumps(plan))
+
+
 def _run_plans(plans):
     agg = Agg()
     faulthandler.dump_traceback_later(900, exit=True)
     try:
         for i, plan in plans:
+            plan = norm(plan)
             out = _CHECK.execute(plan)
             agg.add(i, plan, out, keep_sample=True)
             if out.violation is not None:
@@ -301,7 +380,7 @@ def _shrink_task(plan, decisions, viol):
 
     def fails(p, d=None):
         try:
-            o = check.execute(p, forced=d)
+            o = check.execute(norm(p), forced=d)
         except Exception:
             return None
         return o if (o.violation is not None and o.violation['kind'] == kind) else None
@@ -632,7 +711,7 @@ def drive(check, tier, seed, budget_s=None, workers=None, log=print):
     # 1. fixed plans: regressions of fixed findings and reproductions of open findings
     fixed_agg = Agg()
     for fi, item in enumerate(check.fixed_plans(tier)):
-        name, plan = item[0], item[1]
+        name, plan = item[0], norm(item[1])
         out = check.execute(plan, forced=(item[2] if len(item) > 2 else None))
         fixed_agg.add(-1000000 - fi, plan, out)       # (a violation of a fixed plan reaches the report through the merged aggregate)
 
@@ -645,8 +724,8 @@ def drive(check, tier, seed, budget_s=None, workers=None, log=print):
         if jhash(p1) != jhash(p2):
             canary = 'FAIL: plan generation not a function of the seed (run %d)' % i
             break
-        o1 = check.execute(p1)
-        o2 = check.execute(p2)
+        o1 = check.execute(norm(p1))
+        o2 = check.execute(norm(p2))
         if (o1.digest, o1.decisions) != (o2.digest, o2.decisions):
             canary = 'FAIL: run %d gave two different event logs' % i
             break
